@@ -306,7 +306,7 @@ class Tle:
             norad_id=norad_id,
             i=np.degrees(i) % 360,
             Ω=np.degrees(Ω) % 360,
-            e="{:.7f}".format(e)[2:],
+            e="{:.7f}".format(min(e, 0.9999999))[2:],
             ω=np.degrees(ω) % 360,
             M=np.degrees(M) % 360,
             n=n * 86400 / (2 * np.pi),
